@@ -303,7 +303,7 @@ Qed.
 Theorem tts_fh_sound nn f a b : valid_fh f -> tts_fh_relative nn f = Ok (a, b) ->
   split_ok nn f (a, b) /\ split_cutoff f (a, b) + zlast f = nn - 1 /\ a = zrange 0 (nn - zlast f) 1.
 Proof.
-  intros Hf H. unfold tts_fh_relative in H.
+  intros Hf H. unfold tts_fh_relative, tts_fh_relative_at in H.
   destruct ((0 <? zfirst f) && (zlast f <? nn)) eqn:E; [|discriminate].
   apply andb_prop in E. destruct E as [E1 E2]. injection H as <- <-. repeat split.
   - apply split_ok_intro; [exact Hf|lia|lia].
@@ -322,6 +322,31 @@ Proof.
   split; [reflexivity|]. split; [intro x; apply zrange1_in|]. split.
   - intros x y Hx Hy. apply zrange1_in in Hx. pose proof (sorted_lt_first_min f y Hs Hy). lia.
   - intros y Hy. pose proof (sorted_lt_first_min f y Hs Hy). pose proof (sorted_lt_last_max f y Hs Hy). lia.
+Qed.
+
+(* the same about the regenerated _split_by_fh, for a series labelled lo .. lo+n-1 *)
+Lemma code_tts_fh_relative lo nn f : valid_fh f -> zlast f < nn ->
+  exists a b, gen_split_by_fh (zrange lo (lo + nn) 1) true nn f tt = Ok (a, b) /\
+    a = zrange lo (lo + nn - zlast f) 1 /\ b = map (fun h => lo + nn - zlast f - 1 + h) f /\
+    (forall x y, In x a -> In y b -> x < y) /\ (forall y, In y b -> lo <= y < lo + nn).
+Proof.
+  intros Hf Hn. rewrite bridge_tts_fh_relative by assumption. unfold tts_fh_relative_at.
+  pose proof Hf as (Hne & Hs & H1). pose proof (valid_fh_last_pos f Hf) as Hl.
+  destruct (0 <? zfirst f) eqn:E1; [|lia]. destruct (zlast f <? nn) eqn:E2; [|lia]. cbn [andb].
+  eexists _, _. split; [reflexivity|]. split; [f_equal; lia|]. split; [reflexivity|]. split.
+  - intros x y Hx Hy. apply zrange1_in in Hx. apply in_map_iff in Hy. destruct Hy as [h [<- Hh]].
+    pose proof (valid_fh_pos f h Hf Hh). lia.
+  - intros y Hy. apply in_map_iff in Hy. destruct Hy as [h [<- Hh]].
+    pose proof (valid_fh_pos f h Hf Hh). pose proof (valid_fh_le_last f h Hf Hh). lia.
+Qed.
+
+Lemma code_tts_fh_absolute lo nn f : f <> [] -> sorted_lt f -> lo < zfirst f -> zlast f < lo + nn ->
+  exists a, gen_split_by_fh (zrange lo (lo + nn) 1) false nn f tt = Ok (a, f) /\
+    (forall x, In x a <-> lo <= x < zfirst f).
+Proof.
+  intros Hne Hs H1 H2. rewrite bridge_tts_fh_absolute by assumption. unfold tts_fh_absolute.
+  destruct (lo <? zfirst f) eqn:E1; [|lia]. destruct (zlast f <? lo + nn) eqn:E2; [|lia]. cbn [andb].
+  eexists. split; [reflexivity|]. intro x. apply zrange1_in.
 Qed.
 
 (* non-vacuity: a concrete non-trivial configuration meets every hypothesis *)
